@@ -178,6 +178,10 @@ func (w *W) c05(groups [][]*driver.Bound) {
 					if probe > 160 {
 						bound--
 					}
+					if w.thorough && probe > 14 && bound > 2 {
+						// three deviations are affordable for short streams only (≈ n³·64/6 executions)
+						bound = 2
+					}
 					ci := func(x *explore.Exec) map[string]any {
 						m := caseInfo(b, st[len(st)-1].rv)
 						m["stream"] = vlib.Hex(data)
